@@ -345,16 +345,22 @@ Proof. intros H1 H2. rewrite chain_closed. unfold chain_spec. rewrite H1, H2. re
 Theorem chain_missing_line a s j : c_jumpnum a = Some j -> c_jump_missing a = true ->
   match cmd_chain a s with
   | Done _ => False
-  | Raised e s' => e <> err_IFC \/ s' = s \/
+  | Raised e s' => e <> err_IFC \/ s' = s \/ s' = s <| m_allow_collect := true |> \/
        (sc_vars s' = [] /\ ar_dims s' = [] /\ m_prog_size s' = c_new_prog_size a /\ m_allow_collect s' = true)
   | _ => True
   end.
 Proof.
   intros H1 H2. rewrite chain_closed. unfold chain_spec. rewrite H1, H2.
-  cbn [h_gather h_setok h_migrate h_sizes h_restore real_handlers].
-  repeat match goal with
-  | |- context [match ?x with _ => _ end] => destruct x
-  end; try exact I; try (right; left; reflexivity); try (right; right; repeat split); try (left; discriminate).
+  cbn [h_gather h_setok h_migrate h_sizes h_restore real_handlers]. cbv beta iota.
+  destruct (c_delete a && c_to_line_missing a); [right; left; reflexivity|].
+  destruct (c_merge a && c_protected a); [right; left; reflexivity|].
+  destruct (gather (deftype s) 0 (c_decls a) []); try exact I.
+  destruct (gather (deftype s) 1 (c_decls a) []); try exact I.
+  match goal with |- context [if ?c then _ else _] => destruct c end; [|exact I].
+  match goal with |- context [migrate_commons ?x ?y ?z] => destruct (migrate_commons x y z) end; try exact I.
+  - destruct (c_file_missing a); [left; vm_compute; discriminate|].
+    right; right; right. repeat split.
+  - right; right; left. reflexivity.
 Qed.
 
 (* a COMMON string that lives in a FIELD buffer or is a literal in program code (a pointer below the variables,
